@@ -32,6 +32,7 @@ type PFlags struct {
 	Budget    int
 	NoFaults  bool
 	MaxRec    int // largest argument given to recursion templates
+	Atoms     bool // atoms in throw points (an update function that re-sets its atom and then throws)
 	HotStr    bool // string literals over the hot alphabet (tab, CR, quotes, JSON-looking multi-line text …) instead of plain ones
 	Malformed bool // malformed special forms among the planted faults (unspecified by the reference interpreter: differential use only)
 	FnEq      bool // = applied to functions (the reference interpreter leaves it unspecified: only for differential use between routes)
@@ -234,6 +235,56 @@ func Program(t *rapid.T, f PFlags) Prog {
 		forms = append(forms, call("def", sym(k), val.I(10+g.pick("kr1", 9))))
 		forms = append(forms, call("trace!", call(gn, val.I(1))))
 		sc = sc.with(tvar{k, TInt}, tvar{gn, TFn})
+	}
+	// a function that calls itself by its global name is kept under another name while the name is
+	// re-defined: the old function's self call reaches the NEW definition (the name is looked up when used)
+	if Chance(t, "self-redef", 6) {
+		g.use("global-redefinition")
+		g.use("self-name-redefinition")
+		n := sym("n")
+		forms = append(forms, call("def", sym("sr"), call("fn", lst(n), call("if", call("<", n, val.I(1)), val.I(0), call("+", val.I(1), call("sr", call("-", n, val.I(1))))))))
+		switch g.pick("selfalias", 3) {
+		case 0:
+			forms = append(forms, call("def", sym("sa"), sym("sr")))
+		case 1:
+			forms = append(forms, call("def", sym("sa"), call("let", lst(sym("q"), sym("sr")), sym("q"))))
+		default:
+			forms = append(forms, call("def", sym("sa"), call("first", call("list", sym("sr")))))
+		}
+		forms = append(forms, call("trace!", call("sa", val.I(2))))
+		forms = append(forms, call("def", sym("sr"), call("fn", lst(n), val.I(100+g.pick("sr1", 9)))))
+		forms = append(forms, call("trace!", call("sa", val.I(2))))
+	}
+	// a closure made in a let reads a name that a nested let in tail position (directly, or through do / if / the
+	// body of a called function) binds again, or defines: every let has a scope of its own
+	if Chance(t, "tail-let", 5) {
+		g.use("tail-let-rebinding")
+		g.use("closure-capture")
+		x, f := sym("x"), sym("f")
+		e1, e2 := g.leaf(TInt, sc), val.I(20+g.pick("tl2", 9))
+		var inner val.V
+		switch g.pick("tlinner", 3) {
+		case 0:
+			inner = call("let", lst(x, e2), call("list", x, lst(f)))
+		case 1:
+			inner = call("let", lst(sym("y"), e2), call("def", x, sym("y")), call("list", x, lst(f)))
+		default:
+			inner = call("let", lst(x, call("+", x, val.I(1))), call("let", lst(x, call("+", x, val.I(1))), call("list", x, lst(f))))
+		}
+		switch g.pick("tlvia", 4) {
+		case 1:
+			inner = call("do", call("trace!", g.nextTrace()), inner)
+		case 2:
+			inner = call("if", val.B(true), inner, val.I(0))
+		case 3:
+			inner = call("cond", val.B(false), val.I(0), val.B(true), inner)
+		}
+		outer := call("let", lst(x, e1, f, call("fn", lst(), x)), inner)
+		if g.chance("tlfn", 3) {
+			// the outer scope is the body of a called function
+			outer = lst(call("fn", lst(x), call("let", lst(f, call("fn", lst(), x)), inner)), e1)
+		}
+		forms = append(forms, call("trace!", outer))
 	}
 	// a macro that is re-defined between two evaluations of the same call site
 	if f.Macros && Chance(t, "macro-redef", 5) {
